@@ -407,7 +407,7 @@ class Contender:
         r = self._read()
         self.pid = int(r[1]) if r and r[0] == "R" else -1
 
-    def _read(self, timeout=10.0):
+    def _read(self, timeout=60.0):
         rl, _, _ = select.select([self.p.stdout], [], [], timeout)
         if not rl:
             self.last = ("TIMEOUT",)
